@@ -4,6 +4,7 @@ import IsoVerif.Model.IntronGraph
 import IsoVerif.Model.ModelConstruction
 import IsoVerif.Model.GeneJoiner
 import IsoVerif.Model.IntronTerminals
+import IsoVerif.Model.IntronSimplify
 
 namespace IsoVerif.Driver.C04
 open Lean IsoVerif.Driver IsoVerif.Gen IsoVerif.Model IsoVerif.Model.C04
@@ -43,6 +44,22 @@ def jOp (j : Json) : Except String Op := do
   | "attach_out" => pure (.attachOut (← iv 1) (← iv 2))
   | "attach_inc" => pure (.attachInc (← iv 1) (← iv 2))
   | _ => throw s!"unknown graph op {k}"
+
+def ofOp : Op → Json
+  | .addEdge a b => Json.arr #[ofStr "add_edge", ofIv a, ofIv b]
+  | .collapse a b => Json.arr #[ofStr "collapse", ofIv a, ofIv b]
+  | .delVertex a => Json.arr #[ofStr "del_vertex", ofIv a]
+  | .delOut a => Json.arr #[ofStr "del_out", ofIv a]
+  | .delInc a => Json.arr #[ofStr "del_inc", ofIv a]
+  | .discard a => Json.arr #[ofStr "discard", ofIv a]
+  | .touch a => Json.arr #[ofStr "touch", ofIv a]
+  | .simplifyMap => Json.arr #[ofStr "simplify_map"]
+  | .attachOut a b => Json.arr #[ofStr "attach_out", ofIv a, ofIv b]
+  | .attachInc a b => Json.arr #[ofStr "attach_inc", ofIv a, ofIv b]
+
+def jSimpParams (j : Json) : Except String SimpParams := do
+  pure { dist := ← jInt (← arg j "graph_clustering_distance"), ratioM := ← jInt (← arg j "graph_clustering_ratio"),
+         sac := ← jInt (← arg j "singleton_adjacent_cov"), isoAbs := ← jInt (← arg j "min_novel_isolated_intron_abs") }
 
 def jStrand (j : Json) : Except String Strand := do
   match Strand.ofString? (← jStr j) with
@@ -355,6 +372,51 @@ def ops : List (String × Handler) := [
             match aops.foldlM applyOp g1 with
             | none => pure (jErr "error")
             | some g2 => pure (Json.mkObj [("graph", ofGraph g2), ("fragile", ofBool fragile), ("n_attach", ofNat aops.length)])),
+  ("simplify_run", fun j => do
+      -- IntronGraph.__init__ up to and including simplify(), COMPUTED by the model: graph, operations, boundary flag
+      let reads ← jList jRead (← arg j "reads")
+      let sp ← jSimpParams (← arg j "simplify")
+      match Graph.constructed (← jIvList (← arg j "known")) (← jInt (← arg j "delta")) reads (← jInt (← arg j "min_count")) with
+      | none => pure (jErr "error")
+      | some g0 =>
+        match simplifySG sp (SG.init g0) with
+        | none => pure (jErr "error")
+        | some s => pure (Json.mkObj [("graph", ofGraph s.g), ("ops", ofList ofOp s.log), ("fragile", ofBool s.fragile)])),
+  ("simplify_state", fun j => do
+      -- simplify() on an arbitrary graph state
+      let g ← jGraph (← arg j "graph")
+      let sp ← jSimpParams (← arg j "simplify")
+      match simplifySG sp (SG.init g) with
+      | none => pure (jErr "error")
+      | some s => pure (Json.mkObj [("graph", ofGraph s.g), ("ops", ofList ofOp s.log), ("fragile", ofBool s.fragile)])),
+  ("collapse_vertex_set", fun j => do
+      let sp ← jSimpParams (← arg j "simplify")
+      let cl ← jList (jPair jIv jInt) (← arg j "clustered")
+      let r := collapseVertexSet sp cl (← jIvList (← arg j "vs"))
+      pure (Json.mkObj [("subst", ofList (fun p : Iv × Iv => Json.arr #[ofIv p.1, ofIv p.2]) (sortSubst r.1)), ("fragile", ofBool r.2)])),
+  ("graph_full", fun j => do
+      -- the whole IntronGraph.__init__ inside the model: process, construct, COMPUTED simplify(), MODELLED attachment
+      let reads ← jList jRead (← arg j "reads")
+      let sp ← jSimpParams (← arg j "simplify")
+      let tp : TermParams := {
+        delta := ← jInt (← arg j "delta"), apaDelta := ← jInt (← arg j "apa_delta"),
+        abs := ← jInt (← arg j "terminal_position_abs"), relM := ← jInt (← arg j "terminal_position_rel"),
+        internalRelM := ← jInt (← arg j "terminal_internal_position_rel"),
+        knownEnds := ← jList (jPair jIv (jList jInt)) (← arg j "known_ends"),
+        knownStarts := ← jList (jPair jIv (jList jInt)) (← arg j "known_starts") }
+      match Graph.constructed (← jIvList (← arg j "known")) (← jInt (← arg j "delta")) reads (← jInt (← arg j "min_count")) with
+      | none => pure (jErr "error")
+      | some g0 =>
+        match simplifySG sp (SG.init g0) with
+        | none => pure (jErr "error")
+        | some s =>
+          match attachTerminalOps s.g tp reads with
+          | none => pure (jErr "error")
+          | some (aops, fragile) =>
+            match aops.foldlM applyOp s.g with
+            | none => pure (jErr "error")
+            | some g2 => pure (Json.mkObj [("graph", ofGraph g2), ("fragile", ofBool (fragile || s.fragile)),
+                                           ("n_attach", ofNat aops.length), ("n_simplify", ofNat s.log.length)])),
   ("monoexon", fun j => do
       let chr ← jStr (← arg j "chr")
       let forb ← jList jNat (← arg j "forbidden")
